@@ -86,6 +86,8 @@ Definition seg_found (s : strm) (n : Z) : bool := (0 <=? n) && (st_segs s - 3 <=
 (* the idle task's view of HLS viewers: an access within the period *)
 Definition hls_recent (s : strm) (period : Z) : bool := st_hls s && (st_hls_idle s <? period).
 
+Definition retire_period : Z := 5.
+
 Section Reg.
 Variable V : rvariant.
 
@@ -120,7 +122,8 @@ Inductive gop :=
 | GTick (d : Z)
 | GSeg (i : nat)
 | GHlsPoll (i : nat)
-| GHlsSeg (i : nat) (n : Z).
+| GHlsSeg (i : nat) (n : Z)
+| GFire.                      (* every pending retire task of the registry runs once *)
 
 Inductive gout :=
 | RUnit
@@ -144,6 +147,13 @@ Fixpoint insert_sorted (x : bytes) (l : list bytes) : list bytes :=
   | y :: l' => if bytes_leb x y then x :: l else y :: insert_sorted x l'
   end.
 Definition sort_paths (l : list bytes) : list bytes := fold_right insert_sorted [] l.
+
+(* one run of the zero-consumers close task (runZeroConsumersClose.run) for stream i with period [period] *)
+Definition idle_task (g : rstate) (i : nat) (period : Z) : rstate * gout :=
+  let s := sget g i in
+  if negb (i <? length (g_streams g))%nat then (g, RIdle false) else
+  let idle := (if v_anycons V then consumers s else st_rtp s) <=? 0 in
+  if idle && negb (hls_recent s period) then (close_stream g i, RIdle (st_live s)) else (g, RIdle false).
 
 Definition gstep (g : rstate) (o : gop) : rstate * gout :=
   match o with
@@ -200,12 +210,7 @@ Definition gstep (g : rstate) (o : gop) : rstate * gout :=
                    st_flv := if flv then st_flv s - 1 else st_flv s; st_retire := st_retire s; st_hls := st_hls s;
                    st_att_total := st_att_total s; st_det_total := st_det_total s + 1;
       st_hls_idle := st_hls_idle s; st_segs := st_segs s |}, RUnit)
-  | GIdle i period =>
-      (* one run of the zero-consumers close task with period [period] *)
-      let s := sget g i in
-      if negb (i <? length (g_streams g))%nat then (g, RIdle false) else
-      let idle := (if v_anycons V then consumers s else st_rtp s) <=? 0 in
-      if idle && negb (hls_recent s period) then (close_stream g i, RIdle (st_live s)) else (g, RIdle false)
+  | GIdle i period => idle_task g i period
   | GUnregistAll =>
       (* media.UnregistAll: Range over the registry; each entry is deleted and its stream closed *)
       (fold_left (fun g' e => close_stream {| g_map := mdelete (g_map g') (fst e); g_streams := g_streams g' |} (snd e))
@@ -225,6 +230,11 @@ Definition gstep (g : rstate) (o : gop) : rstate * gout :=
       let s := sget g i in
       if negb (i <? length (g_streams g))%nat || negb (hls_usable s) then (g, RHls false) else
       (sset g i (hls_touch s true (st_segs s)), RHls (seg_found s n))
+  | GFire =>
+      (* the scheduler runs the retire tasks Regist posted: each is bound to the stream that was replaced
+         while it had consumers ([st_retire]) and has the period of 5 minutes = [retire_period] ticks *)
+      (fold_left (fun g' i => if st_retire (sget g' i) then fst (idle_task g' i retire_period) else g')
+                 (seq 0 (length (g_streams g))) g, RUnit)
   end.
 
 Fixpoint grun (g : rstate) (ops : list gop) : rstate * list gout :=
@@ -236,6 +246,7 @@ Fixpoint grun (g : rstate) (ops : list gop) : rstate * list gout :=
   end.
 
 End Reg.
+Arguments idle_task V g i period /.
 
 (* ---------- specification, written from the property text ---------- *)
 (* The specification keeps, per key, the stream registered most recently (never forgetting it) and
@@ -260,6 +271,14 @@ Definition sp_resolve (g : sstate) (k : bytes) : option nat :=
   | Some i => if st_live (sp_get g i) then Some i else None
   | None => None
   end.
+
+(* closed for idleness only with no consumer of any protocol and no HLS access within the period *)
+Definition sp_idle_task (g : sstate) (i : nat) (period : Z) : sstate * gout :=
+  let s := sp_get g i in
+  if negb (i <? length (sp_streams g))%nat then (g, RIdle false) else
+  if (consumers s <=? 0) && negb (hls_recent s period) then (sp_kill g i, RIdle (st_live s)) else (g, RIdle false).
+
+Arguments sp_idle_task g i period /.
 
 Definition sstep (g : sstate) (o : gop) : sstate * gout :=
   match o with
@@ -308,11 +327,7 @@ Definition sstep (g : sstate) (o : gop) : sstate * gout :=
                      st_flv := if flv then st_flv s - 1 else st_flv s; st_retire := st_retire s; st_hls := st_hls s;
                    st_att_total := st_att_total s; st_det_total := st_det_total s + 1;
       st_hls_idle := st_hls_idle s; st_segs := st_segs s |}, RUnit)
-  | GIdle i period =>
-      (* closed for idleness only with no consumer of any protocol and no HLS access within the period *)
-      let s := sp_get g i in
-      if negb (i <? length (sp_streams g))%nat then (g, RIdle false) else
-      if (consumers s <=? 0) && negb (hls_recent s period) then (sp_kill g i, RIdle (st_live s)) else (g, RIdle false)
+  | GIdle i period => sp_idle_task g i period
   | GUnregistAll =>
       (* shutdown: every stream that currently resolves ends *)
       (fold_left (fun g' e => sp_kill g' (snd e)) (filter (sp_live g) (sp_last g)) g, RUnit)
@@ -331,6 +346,10 @@ Definition sstep (g : sstate) (o : gop) : sstate * gout :=
       let s := sp_get g i in
       if negb (i <? length (sp_streams g))%nat || negb (hls_usable s) then (g, RHls false) else
       (sp_set g i (hls_touch s true (st_segs s)), RHls (seg_found s n))
+  | GFire =>
+      (* a retire task is bound to the stream it was created for: the replaced one *)
+      (fold_left (fun g' i => if st_retire (sp_get g' i) then fst (sp_idle_task g' i retire_period) else g')
+                 (seq 0 (length (sp_streams g))) g, RUnit)
   end.
 
 Fixpoint srun (g : sstate) (ops : list gop) : list gout :=
